@@ -46,10 +46,15 @@ def run(chk):
     rng = random.Random(vf.seed())
     binary = vf.go_build("index")
     # 1. the property in the model: with reference-counted drafts it holds ...
-    r = vf.tlc("Chain", "Index", "mc.cfg", cfg_text=cfg(ALL, 5 if thorough else 4, 2 if thorough else 1, False,
+    r = vf.tlc("Chain", "Index", "mc.cfg", cfg_text=cfg(ALL, 5 if thorough else 4, 1, False,
                "INVARIANTS DraftsAgree\nPROPERTIES DisconnectUndoesConnect"), workers=16, timeout=1700)
     vf.tlc_ok(r, "Index exhaustive")
-    chk.add_tlc(r, "exhaustive Index.tla (ideal draft store): 11 templates, <=%d ops" % (5 if thorough else 4))
+    chk.add_tlc(r, "exhaustive Index.tla (ideal draft store): %d templates, <=%d ops, 1 tx per block" % (len(ALL), 5 if thorough else 4))
+    if thorough:
+        r = vf.tlc("Chain", "Index", "mc2.cfg", cfg_text=cfg(ALL, 3, 2, False,
+                   "INVARIANTS DraftsAgree\nPROPERTIES DisconnectUndoesConnect"), workers=16, timeout=1700)
+        vf.tlc_ok(r, "Index exhaustive, 2 tx per block")
+        chk.add_tlc(r, "exhaustive Index.tla (ideal draft store): %d templates, <=3 ops, 2 tx per block" % len(ALL))
     behs = []
     # 2. every edge of connect/disconnect/reconnect sequences, single-transaction blocks
     r = vf.tlc("Chain", "Index", "x1.cfg", cfg_text=cfg(ALL, 4 if thorough else 3, 1, asis(), "ACTION_CONSTRAINT Emit"),
